@@ -80,6 +80,14 @@ CHECKS["C13"] = dict(
     ref="2/C13",
 )
 
+CHECKS["C16"] = dict(
+    technique="invariant monitor over every location stored in the public AST (walked by the Rust driver) and over the printer's source map",
+    text="Generated templates are re-spelt with LF / CRLF line breaks, multi-byte and astral characters before every node; the driver walks the public AST and emits every stored location; for each, the source slice must equal the spelling / decode to the value / parse to the number, children must nest in parents (including the computed locations of compound expressions) and siblings must be ordered. Every entry of the Stringifier source map must have non-decreasing output positions, point at its token in the printed text, carry the source spelling as name and start at a recorded construct start.",
+    note="Trusted: the monitor's entity / string-literal decoders; the AST walker (wildcard arms count what it cannot classify). Only templates parsed without Error-level diagnostics are judged.",
+    ref="2/C16",
+    engine="gev",
+)
+
 NOT_YET = {}
 
 
